@@ -67,6 +67,43 @@ CLAIMS = {
              "pandas concat / row-wise aggregates as opaque provenance; numeric equality with manual composition is bounded-tier only",
         technique="contract-based deductive verification: AST->VC generation (pyvc) + z3; abstract components with ghost trace and data provenance",
         design="6/C09"),
+    "C10": dict(
+        category="proof",
+        text="_update_y_X (remembered data = union of the labels, later values win, cutoff = end of the batch, for batches that touch or "
+             "overlap what is remembered and a cutoff anywhere inside it), the default update (refit on exactly that union iff "
+             "update_params, otherwise no fitted state touched), both _update_predict_single variants (= update then predict with the same "
+             "options), _predict_moving_cutoff (each splitter window goes to one single update-and-predict step; cutoff restored on normal "
+             "and exceptional exit), update of pipeline / ensemble / multiplexer / Detrender / Deseasonalizer are verified.",
+        note="'same forecasts as a fresh forecaster fitted on y1 followed by y2' follows from the proved refit-on-union for every "
+             "forecaster whose fit is a function of its arguments (assumption); _format_moving_cutoff_predictions is an ASSUMED "
+             "contract; Series.combine_first modelled for contiguous integer indexes without gap; numeric equivalence on call "
+             "histories is bounded-tier only",
+        technique="contract-based deductive verification: AST->VC generation (pyvc) + z3; abstract fit/predict with ghost trace",
+        design="6/C10"),
+    "C11": dict(
+        category="proof",
+        text="NaiveForecaster._predict_last_window is verified for all series, cutoffs inside the series (so also in-sample windows "
+             "shorter than window_length_), window lengths, seasonal periods and horizons: last value / latest same-season value "
+             "(or missing), mean of exactly the window, seasonal mean = aggregate over exactly the same-season observations of the "
+             "available window (statement on the cells handed to nanmean), drift through the window's end points. "
+             "PolynomialTrendForecaster.fit/_predict: degree/intercept options and the zero-based time axis (label - first label) "
+             "in-sample and out-of-sample, labels = requested time points.",
+        note="np.nanmean is an uninterpreted aggregator (no missing values assumed in the window); least-squares fit is sklearn's "
+             "(assumed); statsmodels adapters (ExponentialSmoothing, AutoETS, Theta) are covered by the bounded tier only "
+             "(comparison with direct statsmodels calls); nonlinear mod/ceil facts via quotient-remainder encoding + hint lemmas",
+        technique="contract-based deductive verification: AST->VC generation (pyvc) + z3 (nonlinear integer arithmetic with hint lemmas)",
+        design="6/C11"),
+    "C13": dict(
+        category="proof",
+        text="Deseasonalizer._align_seasonal: the component at time t is seasonal_[(t - t0) mod sp] for every stretch start, length and "
+             "period (np.roll/np.resize models, quotient-remainder encoding); transform/inverse_transform remove/restore exactly that "
+             "component with the input's index (additive and multiplicative), never write the input or the estimator; update leaves the "
+             "phase origin and the component unchanged; OptionalPassthrough applies the same switch in both directions (identity when "
+             "passing through, whatever state the object has been through); round-trip lemmas over the contracts.",
+        note="stretch index modelled as a contiguous integer range; Box-Cox / log / sklearn adaptor inverses and Detrender numerics are "
+             "bounded-tier only (floating point, transcendental functions); HampelFilter / Imputer index handling bounded-tier only",
+        technique="contract-based deductive verification: AST->VC generation (pyvc) + z3/cvc5; modular arithmetic via quotient/remainder",
+        design="6/C13"),
     "C20": dict(
         category="proof",
         text="Two-sided contracts (raises E iff malformed, else returns its argument) are proved for the validation helpers is_int, "
